@@ -58,15 +58,28 @@ class Ctx:
 # ---------------------------------------------------------------- Go
 
 def go_build(driver, tags="verif", race=False, moddir=None, pkg=None):
-    """Build ./drivers/<driver> of the harness against /repo's working tree. Returns binary path."""
-    os.makedirs(BUILD, exist_ok=True)
+    """Build ./drivers/<driver> of the harness against the repository working tree ($VERIF_REPO, default /repo).
+    A scratch go.mod (-modfile) carries the replace directive so a scratch worktree can be checked without
+    touching /repo. Returns the binary path."""
     moddir = moddir or HARNESS
-    # keep go.sum in step with the repository (offline: no sumdb)
-    src_sum = os.path.join(REPO, "go.sum") if moddir == HARNESS else None
-    if src_sum and os.path.exists(src_sum):
-        shutil.copyfile(src_sum, os.path.join(moddir, "go.sum"))
-    out = os.path.join(BUILD, driver + ("_race" if race else ""))
-    cmd = ["go", "build", "-tags", tags, "-o", out]
+    key = "" if REPO == "/repo" else "_" + hashlib.sha1(REPO.encode()).hexdigest()[:8]
+    bdir = BUILD + key
+    os.makedirs(bdir, exist_ok=True)
+    modname = os.path.basename(moddir)
+    modfile = os.path.join(bdir, modname + ".go.mod")
+    with open(os.path.join(moddir, "go.mod")) as f:
+        gm = f.read()
+    gm = gm.replace("=> /repo", "=> " + REPO)
+    with open(modfile, "w") as f:
+        f.write(gm)
+    sums = ""
+    for p in (os.path.join(REPO, "go.sum"), os.path.join(REPO, "cmd/hz/go.sum"), os.path.join(moddir, "go.sum")):
+        if os.path.exists(p):
+            sums += open(p).read()
+    with open(os.path.join(bdir, modname + ".go.sum"), "w") as f:
+        f.write("".join(sorted(set(sums.splitlines(True)))))
+    out = os.path.join(bdir, driver + ("_race" if race else ""))
+    cmd = ["go", "build", "-modfile", modfile, "-tags", tags, "-o", out]
     if race:
         cmd.append("-race")
     cmd.append(pkg or "./drivers/" + driver)
@@ -74,7 +87,7 @@ def go_build(driver, tags="verif", race=False, moddir=None, pkg=None):
     p = subprocess.run(cmd, cwd=moddir, env=GOENV, capture_output=True, text=True)
     if p.returncode != 0:
         raise Infra("go build %s failed:\n%s%s" % (driver, p.stdout, p.stderr))
-    log("built %s in %.1fs" % (driver, time.time() - t))
+    log("built %s against %s in %.1fs" % (driver, REPO, time.time() - t))
     return out
 
 
